@@ -182,7 +182,8 @@ def generate(run_seed):
         script.append("restart")
     script.append("finalize")
     for _ in range(rng.randint(1, 6)):
-        script.append(rng.choice(["clean", "finalize", "clean", "save_check", "restart", "cycle"]))
+        script.append(rng.choice(["clean", "finalize", "clean", "save_check", "restart", "cycle",
+                                  "grow_target", "finalize", "rename_target"]))
     return {"format": 1, "engine": "links", "property": PROPERTY, "run_seed": run_seed,
             "profile": profile, "main": main, "inc": inc, "links": links, "script": script,
             "doc_repo": rng.choice(REPOS), "inc_repo": rng.choice(REPOS)}
@@ -268,6 +269,11 @@ class World(object):
                             "include"))
         return out
 
+    def linkers_of(self, base_targets):
+        """[(linker, target object, kind)] with the targets fixed by identity (not by path text)."""
+        tmap = dict((id(lk), tgt) for lk, tgt in base_targets)
+        return [(lk, tmap.get(id(lk), tgt), kind) for lk, tgt, kind in self.linkers()]
+
     def tree(self, obj, with_ids=True, cut=(), designate=True, depth=0):
         """Nested canonical tree of obj taken through the public getters.  cut: objects whose
         children are left out; designate: a link is represented by the path of the Section it
@@ -332,26 +338,70 @@ def run_case(case):
 
         base = W.tree(doc)                                   # unresolved state, ids included
         base_targets = [(lk, tgt) for lk, tgt, _ in W.linkers()]
+
+        def own_table():
+            """linker id -> ids of the children it holds itself (taken in an unresolved state)."""
+            return dict((lk.id, set(c.id for c in list(lk.sections) + list(lk.properties)))
+                        for lk, _, _ in W.linkers())
+        own_ids = own_table()
         resolved = False
+        edited = False          # the target side was edited since the last unresolved base
+        n_edit = 0
         for step, op in enumerate(case["script"]):
             res.stats["steps"] += 1
             res.count("ops", op)
             lks = W.linkers()
             pre_outside = W.tree(W.doc, cut=[lk for lk, _, _ in lks])
-            pre_own = [(lk, [W.tree(s) for s in lk.sections], [W.tree(p) for p in lk.properties])
+            pre_own = [(lk, [W.tree(s) for s in lk.sections if s.id in own_ids.get(lk.id, ())],
+                        [W.tree(p) for p in lk.properties if p.id in own_ids.get(lk.id, ())])
                        for lk, _, _ in lks]
             vio = None
             try:
                 if op == "finalize":
                     W.doc.finalize()
-                    if not resolved:
-                        vio = check_finalized(W, lks, pre_outside, pre_own, restore)
+                    # every finalize, also a repeated one after the target has gained children
+                    vio = check_finalized(W, lks, pre_outside, pre_own, restore)
                     resolved = True
                 elif op == "clean":
                     W.doc.clean()
                     resolved = False
-                    if restore:
+                    if restore and not edited:
                         vio = check_restored(W, base, base_targets)
+                    elif restore:
+                        vio = check_cleaned_after_edit(W, lks, pre_outside, pre_own, base_targets)
+                    if vio is None and edited:
+                        base = W.tree(W.doc)
+                        edited = False
+                elif op == "grow_target":
+                    picks = [(lk, tgt) for lk, tgt, kind in lks if kind == "link" and tgt is not None]
+                    if picks:
+                        lk, tgt = picks[step % len(picks)]
+                        n_edit += 1
+                        odml.Property(name="g%d" % n_edit, values=n_edit, parent=tgt)
+                        if step % 2:
+                            odml.Section(name="gs%d" % n_edit, type="t1", parent=tgt)
+                        if resolved:
+                            edited = True
+                        else:
+                            base = W.tree(W.doc)
+                elif op == "rename_target":
+                    picks = [(lk, tgt) for lk, tgt, kind in lks if kind == "link" and tgt is not None]
+                    if picks and resolved and restore:
+                        lk, tgt = picks[step % len(picks)]
+                        n_edit += 1
+                        old_name, par = tgt.name, tgt.parent
+                        tgt.name = "r%d" % n_edit
+                        newcomer = odml.Section(name=old_name, type=tgt.type, parent=par)
+                        odml.Property(name="newcomer", values=n_edit, parent=newcomer)
+                        # clean right away: a finalize in between would legitimately follow the
+                        # stored path text to the newcomer
+                        lks = W.linkers_of(base_targets)
+                        pre_outside = W.tree(W.doc, cut=[l for l, _, _ in lks])
+                        W.doc.clean()
+                        resolved = False
+                        vio = check_cleaned_after_edit(W, lks, pre_outside, pre_own, base_targets)
+                        base = W.tree(W.doc)
+                        edited = False
                 elif op == "cycle":
                     if resolved:
                         W.doc.clean()
@@ -368,8 +418,11 @@ def run_case(case):
                         vio = ("link.idempotent", "second finalize differs from the first (ids ignored)")
                     elif b1 != b2:
                         vio = ("link.idempotent", "second clean differs from the first")
-                    elif restore:
+                    elif restore and not edited:
                         vio = check_restored(W, base, base_targets)
+                    if edited:
+                        base = W.tree(W.doc)
+                        edited = False
                 elif op == "restart":
                     if resolved:
                         W.doc.clean()
@@ -378,11 +431,16 @@ def run_case(case):
                     odml.save(W.doc, path, "xml")
                     W.doc = odml.load(path, "xml")
                     base = W.tree(W.doc)
+                    edited = False
                     base_targets = [(lk, tgt) for lk, tgt, _ in W.linkers()]
+                    own_ids = own_table()
                 elif op == "save_check":
                     if resolved:
                         W.doc.clean()
                         resolved = False
+                        if edited:
+                            base = W.tree(W.doc)
+                            edited = False
                     path = os.path.join(env.sandbox, "chk%d.xml" % step)
                     odml.save(W.doc, path, "xml")
                     msg = check_saved(path, W)
@@ -457,10 +515,40 @@ def check_finalized(W, lks, pre_outside, pre_own, restore):
     return None
 
 
+def check_cleaned_after_edit(W, lks, pre_outside, pre_own, base_targets):
+    """clean after the target side was edited while the links were resolved: the linking Sections
+    hold exactly their own children again, nothing outside them was changed by the clean, and
+    every stored link still designates the same target object."""
+    post_outside = W.tree(W.doc, cut=[lk for lk, _, _ in lks])
+    if _no_merged(post_outside) != _no_merged(pre_outside):
+        return ("link.rest-untouched", "clean changed the document outside the linking Sections: %s"
+                % first_diff(_no_merged(pre_outside), _no_merged(post_outside)))
+    for (lk, tgt, kind), (_, own_s, own_p) in zip(lks, pre_own):
+        now_s = [W.tree(s) for s in lk.sections]
+        now_p = [W.tree(p) for p in lk.properties]
+        if now_s != own_s or now_p != own_p:
+            return ("link.restored", "after clean /%s holds %r / %r, its own children are %r / %r" %
+                    ("/".join(path_of(lk)), [t["name"][1] for t in now_s], [t["name"][1] for t in now_p],
+                     [t["name"][1] for t in own_s], [t["name"][1] for t in own_p]))
+    return check_designates(W, base_targets)
+
+
+def _no_merged(tree):
+    # the link of a linking Section is judged by what it designates (check_designates)
+    out = {k: v for k, v in tree.items() if k not in ("merged", "secs", "props", "link")}
+    out["secs"] = [_no_merged(t) for t in tree.get("secs", [])]
+    out["props"] = [_no_merged(t) for t in tree.get("props", [])]
+    return out
+
+
 def check_restored(W, base, base_targets):
     now = W.tree(W.doc)
     if now != base:
         return ("link.restored", "clean did not restore the document: %s" % first_diff(base, now))
+    return check_designates(W, base_targets)
+
+
+def check_designates(W, base_targets):
     for lk, tgt in base_targets:
         if not any(lk is o for o in W.U.subtree(W.doc)):
             continue
